@@ -15,7 +15,8 @@ RULE = ("Generated configurations (N 0..200, 80% <= 12; masses incl. exact zeros
         "open/periodic/shear boundaries (shear: generated t, OMEGA); root layouts 1..3 per axis; opening_angle2 in "
         "{0,0.0025,0.01,0.1,0.23,0.25,0.5,0.97,1}; routines BASIC, COMPENSATED, TREE, JACOBI, MERCURIUS mode 0/1 (4 built-in "
         "changeover functions + a Python one, generated dcrit, full and partial encounter maps), TRACE interaction/Kepler "
-        "(generated K masks and encounter maps)).  The exported reb_simulation_update_acceleration is called on a simulation "
+        "(generated K masks and encounter maps); both also after reb_simulation_remove_particle of a generated encounter "
+        "member while mode==1 (map invariants, partial forces and their sum against the current partition)).  The exported reb_simulation_update_acceleration is called on a simulation "
         "built from the case and ax,ay,az are compared with an O(N^2) reference written from the documentation (numpy longdouble; "
         "cross-checked against an independent mpmath loop for N<=8), tolerance (n_terms+16)*eps*sum|terms| (16*eps*sum|terms| "
         "for COMPENSATED).  TREE theta>0: equality with the Barnes-Hut sum predicted from a geometric octree + the multipole "
@@ -30,6 +31,8 @@ ASSUMPTIONS = [
     "(for shear: plus the y displacement returned by reb_boundary_get_ghostbox, checked to be congruent to "
     "-1.5*i*OMEGA*Lx*t modulo Ly and bounded by 1.5 Ly); a particle's own images are not part of the sum",
     "numpy.longdouble is the x87 80-bit format (eps 1.08e-19), asserted at start-up",
+    "after a tree update results are matched to the generated bodies by (position, mass) fingerprint, not by index (the tree "
+    "may reorder the particle array)",
     "tree geometry: cells halve the root box, a particle belongs to the lower half along an axis iff x < centre; cases where an "
     "opening decision is within rounding of the threshold are not asserted (counted as skipped)",
     "MERCURIUS/TRACE internal inputs (dcrit, encounter_map, current_Ks, mode) are written through the ctypes mirror after "
@@ -44,7 +47,10 @@ CLASSES = ["direct/basic", "direct/compensated", "direct/testparticles_type0", "
            "direct/ignore1", "direct/ignore2", "direct/ghost", "direct/shear", "direct/zero_mass", "direct/softened",
            "direct/N>50", "direct/N_active=0", "direct/momentum", "tree_theta0/ghost", "tree_history/mass_edit_after_steps", "tree_history/edit_nudge", "tree_bound/prediction_checked",
            "tree_bound/bound_checked", "tree_bound/apriori_bound_checked", "mercurius_split/two_part_identity",
-           "mercurius_split/partial_encounter_map", "mercurius_split/pairs_in_changeover", "trace_split/two_part_identity",
+           "mercurius_split/partial_encounter_map", "mercurius_split/pairs_in_changeover", "mercurius_split/remove_active_member",
+           "mercurius_split/remove_testparticle_member", "mercurius_split/remove_active_with_testparticles_in_map",
+           "mercurius_split/remove_two_part_identity", "trace_split/remove_active_member",
+           "trace_split/remove_active_with_testparticles_in_map", "trace_split/two_part_identity",
            "trace_split/K_mixed", "jacobi_whfast_step/massless_testparticles", "documented_partition/tree",
            "documented_partition/jacobi"]
 
@@ -379,6 +385,32 @@ def prepare_tree(sim):
     L.reb_simulation_update_tree_gravity_data(ctypes.byref(sim))
 
 
+def read_acc_by_identity(sim, pos, m, ctx):
+    """Accelerations in the ORDER OF THE CASE.  A tree update may pull a particle out of its cell and re-insert it,
+    which reorders the particle array (documented: the tree may reorder particles), so results are matched to the
+    generated bodies by their (position, mass) fingerprint - positions are distinct by construction - not by index."""
+    import numpy as np
+    got = read_acc(sim)
+    n = sim.N
+    ps = sim.particles
+    cur = [(ps[i].x, ps[i].y, ps[i].z, ps[i].m) for i in range(n)]
+    want = {(p[0], p[1], p[2]): (k, m[k]) for k, p in enumerate(pos)}
+    out = np.empty((len(pos), 3))
+    seen = set()
+    for i, (x, y, z, mi) in enumerate(cur):
+        hit = want.get((x, y, z))
+        if hit is None or hit[1] != mi or hit[0] in seen:
+            raise Violation("after the tree update particle %d has position/mass (%r, %r, %r, %r) which is not one of the bodies "
+                            "that were added" % (i, x, y, z, mi))
+        seen.add(hit[0])
+        out[hit[0]] = got[i]
+    if len(seen) != len(pos):
+        raise Violation("after the tree update %d of the %d bodies are missing" % (len(pos) - len(seen), len(pos)))
+    if any(cur[k][:3] != tuple(pos[k]) for k in range(n)):
+        ctx.cls("tree_update_reordered_particles")
+    return out
+
+
 def distinct_positions(pos):
     return len({tuple(p) for p in pos}) == len(pos)
 
@@ -407,7 +439,7 @@ def run_tree0(case, ctx):
     if sim.N != N:
         raise Violation("tree update removed %d particles that are inside the box" % (N - sim.N))
     update_acc(sim)
-    got = read_acc(sim)
+    got = read_acc_by_identity(sim, pos, m, ctx)
     classify(c, m, ctx, extra_nt=N >= 3)
     nterms = mask.sum(axis=1) * len(shifts)
     compare(got, acc, cond, nterms, 16, 1, "gravity=tree, opening_angle2=0", ctx, "tree0_err/tol")
@@ -654,7 +686,7 @@ def run_tree(case, ctx):
     if sim.N != N:
         raise Violation("tree update removed %d particles that are inside the box" % (N - sim.N))
     update_acc(sim)
-    got = read_acc(sim)
+    got = read_acc_by_identity(sim, pos, m, ctx)
     ctx.cls("theta2=%g" % th2)
     if dep >= 2:
         ctx.cls("depth>=2")
@@ -741,6 +773,9 @@ merc_case = st.fixed_dictionaries({
     "L": st.sampled_from(["mercury", "infinity", "C4", "C5", "python_smoothstep"]),
     "dcrit": st.lists(st.one_of(st.just(0.0), S.floats(0.0, 3.0), S.logfloats(1e-3, 10.0)), min_size=12, max_size=12),
     "members": st.lists(st.booleans(), min_size=12, max_size=12),
+    "remove": st.one_of(st.none(), st.integers(0, 63), st.integers(0, 63)),
+    "members2": st.lists(st.sampled_from([True, True, True, False]), min_size=12, max_size=12),
+    "all_members2": st.booleans(),
 })
 
 
@@ -760,6 +795,30 @@ def star_term(pos, m0, G, soft):
 def heliocentric_mask(N, n_active, tp_type):
     from ..oracles import c02_forces_ref as R
     return R.acts_matrix(N, n_active, tp_type, 2)
+
+
+def check_map_invariants(what, emap, eN, eNa, N, n_eff, expected, ctx):
+    """Encounter map after a removal, on the integrator's own terms: map[0]=0, strictly increasing valid indices,
+    encounter_N_active = number of entries that are active, and the members are the old ones renumbered."""
+    got = [int(emap[k]) for k in range(eN)]
+    ok = (eN >= 1 and got[0] == 0 and all(0 <= g < N for g in got) and all(a < b for a, b in zip(got, got[1:])))
+    if not ok:
+        raise Violation("%s: encounter map %r (encounter_N=%d) is not an increasing list of valid indices < N=%d starting with 0"
+                        % (what, got, eN, N), map=got)
+    if got != expected:
+        raise Violation("%s: encounter map %r, expected the remaining members renumbered %r" % (what, got, expected), map=got)
+    na = len([g for g in got if g < n_eff])
+    if eNa != na:
+        raise Violation("%s: encounter_N_active = %d but %d of the encounter members %r are active (N_active=%d)"
+                        % (what, eNa, na, got, n_eff), map=got, encounter_N_active=eNa)
+
+
+def remove_particle(sim, idx):
+    from rebound import clibrebound as L
+    f = L.reb_simulation_remove_particle
+    f.restype = ctypes.c_int
+    f.argtypes = [ctypes.c_void_p, ctypes.c_int, ctypes.c_int]
+    return f(ctypes.addressof(sim), idx, 1)
 
 
 def run_mercurius(case, ctx):
@@ -872,6 +931,68 @@ def run_mercurius(case, ctx):
         compare(a1s[sel], ref1[sel], cond1[sel], msub.sum(axis=1)[sel] + 1, 24, 2,
                 "mercurius mode 1 restricted to encounter members %r" % mem, ctx, "merc_mode1_err/tol")
         ctx.cls("partial_encounter_map")
+    # ---- a particle is removed while the encounter is being integrated (mode 1): collision/merger or user removal
+    if case.get("remove") is not None and N >= 3:
+        mem2 = [0] + [i for i in range(1, N) if case["members2"][i] or case["all_members2"]]
+        victim = 1 + case["remove"] % (N - 1)
+        rim.mode = 1
+        rim._encounter_N = len(mem2)
+        rim._encounter_N_active = len([i for i in mem2 if i < n])
+        for k in range(N):
+            rim._encounter_map[k] = mem2[k] if k < len(mem2) else 0
+        for i in range(N):
+            rim._dcrit[i] = dcrit[i]
+        if remove_particle(sim, victim) != 1 or sim.N != N - 1:
+            raise Violation("reb_simulation_remove_particle(%d) during a MERCURIUS encounter did not remove the particle" % victim)
+        if victim not in mem2:
+            # not reachable through the integrator (only encounter members move in mode 1); what the map looks like
+            # afterwards is recorded, not asserted
+            ctx.cls("remove_nonmember(record only)")
+        else:
+            N2 = N - 1
+            n_set = c["n_active"] if c["n_active"] < 0 else c["n_active"] - (1 if victim < c["n_active"] else 0)
+            if sim.N_active != n_set:
+                raise Violation("removing particle %d: N_active %d, expected %d" % (victim, sim.N_active, n_set))
+            n2 = N2 if n_set < 0 else n_set
+            exp = [i if i < victim else i - 1 for i in mem2 if i != victim]
+            what = "mercurius mode 1, particle %d (%s) removed from encounter %r" % (victim, "active" if victim < n else "test particle", mem2)
+            check_map_invariants(what, rim._encounter_map, rim._encounter_N, rim._encounter_N_active, N2, n2, exp, ctx)
+            ctx.cls("remove_active_member" if victim < n else "remove_testparticle_member")
+            hp2 = [[sim.particles[i].x, sim.particles[i].y, sim.particles[i].z] for i in range(N2)]
+            m2 = [sim.particles[i].m for i in range(N2)]
+            dc2 = [rim._dcrit[i] for i in range(N2)]
+            if dc2 != dcrit[:victim] + dcrit[victim + 1:]:
+                raise Violation("%s: dcrit %r is not the old list with entry %d removed" % (what, dc2, victim))
+            X2 = np.array(hp2)
+            D2 = X2[:, None, :] - X2[None, :, :]
+            rr2 = np.sqrt(np.sum(D2 * D2, axis=2) + c["soft"] ** 2)
+            L2 = np.zeros((N2, N2))
+            for i in range(1, N2):
+                for j in range(1, N2):
+                    if i != j:
+                        L2[i, j] = Lval(float(rr2[i, j]), max(dc2[i], dc2[j]))
+            mask2 = heliocentric_mask(N2, n_set, c["tp_type"])
+            star2, cond_s2 = star_term(hp2, m2[0], c["G"], c["soft"])
+            inm = np.zeros(N2, dtype=bool)
+            inm[exp] = True
+            ms2 = mask2 & inm[:, None] & inm[None, :]
+            ref, cnd, _ = R.direct_ld(hp2, m2, c["G"], c["soft"], ms2, weight=lambda r: (1 - L2).astype(LD))
+            update_acc(sim)
+            a1r = read_acc(sim)
+            sel = np.array(exp)
+            compare(a1r[sel], (ref + star2)[sel], (cnd + cond_s2)[sel], ms2.sum(axis=1)[sel] + 1, 24, 2,
+                    what + ": (1-L)-weighted part + star for the remaining members", ctx, "merc_remove_mode1_err/tol")
+            if len(exp) == N2:
+                rim.mode = 0
+                update_acc(sim)
+                a0r = read_acc(sim)
+                fullr, condr, _ = R.direct_ld(hp2, m2, c["G"], c["soft"], mask2)
+                compare(a0r + a1r, fullr + star2, condr + cond_s2, 2 * mask2.sum(axis=1) + 2, 48, 2,
+                        what + ": mode 0 + mode 1 vs full heliocentric force of the current partition", ctx, "merc_remove_sum_err/tol")
+                ctx.cls("remove_two_part_identity")
+            if n2 < N2 and len([i for i in exp if i >= n2]) >= 2 and victim < n:
+                ctx.cls("remove_active_with_testparticles_in_map")
+                ctx.nontrivial()
     del keep
 
 
@@ -916,6 +1037,7 @@ trace_case = st.fixed_dictionaries({
     "K": st.lists(st.sampled_from([0, 0, 1]), min_size=78, max_size=78),
     "extra_members": st.lists(st.sampled_from([False, False, True]), min_size=12, max_size=12),
     "all_members": st.sampled_from([False, False, True]),
+    "remove": st.one_of(st.none(), st.integers(0, 63)),
 })
 
 
@@ -1001,6 +1123,51 @@ def run_trace(case, ctx):
         ctx.cls("two_part_identity")
         if len(mem) < N:
             ctx.cls("partial_encounter_map")
+    # ---- a particle is removed during the Kepler (BS) part
+    if case.get("remove") is not None and N >= 3 and len(mem) > 1:
+        victim = 1 + case["remove"] % (N - 1)
+        rit._mode = 1
+        if remove_particle(sim, victim) != 1 or sim.N != N - 1:
+            raise Violation("reb_simulation_remove_particle(%d) during a TRACE Kepler step did not remove the particle" % victim)
+        if victim not in mem:
+            ctx.cls("remove_nonmember(record only)")
+            return
+        N2 = N - 1
+        n_set = c["n_active"] if c["n_active"] < 0 else c["n_active"] - (1 if victim < c["n_active"] else 0)
+        if sim.N_active != n_set:
+            raise Violation("removing particle %d: N_active %d, expected %d" % (victim, sim.N_active, n_set))
+        n2 = N2 if n_set < 0 else n_set
+        exp = [i if i < victim else i - 1 for i in mem if i != victim]
+        what = "trace Kepler part, particle %d (%s) removed from encounter %r" % (victim, "active" if victim < n else "test particle", mem)
+        check_map_invariants(what, rit._encounter_map, rit._encounter_N, rit._encounter_N_active, N2, n2, exp, ctx)
+        ctx.cls("remove_active_member" if victim < n else "remove_testparticle_member")
+        keepi = [i for i in range(N) if i != victim]
+        K2 = Kb[np.ix_(keepi, keepi)]
+        for i in range(N2):
+            for j in range(i + 1, N2):
+                if bool(rit._current_Ks[i * N2 + j]) != bool(K2[i, j]):
+                    raise Violation("%s: current_Ks[%d,%d] = %d after the removal, the pair had %d before"
+                                    % (what, i, j, rit._current_Ks[i * N2 + j], int(K2[i, j])))
+        pos2 = [[sim.particles[i].x, sim.particles[i].y, sim.particles[i].z] for i in range(N2)]
+        m2 = [sim.particles[i].m for i in range(N2)]
+        mask2 = heliocentric_mask(N2, n_set, c["tp_type"])
+        star2, cond_s2 = star_term(pos2, m2[0], c["G"], c["soft"])
+        refk, condk, _ = R.direct_ld(pos2, m2, c["G"], c["soft"], mask2 & K2)
+        refi, condi, _ = R.direct_ld(pos2, m2, c["G"], c["soft"], mask2 & ~K2)
+        update_acc(sim)
+        akr = read_acc(sim)
+        if len(exp) > 1:
+            sel = np.array(exp)
+            compare(akr[sel], (refk + star2)[sel], (condk + cond_s2)[sel], (mask2 & K2).sum(axis=1)[sel] + 1, 24, 1,
+                    what + ": star + K=1 pairs for the remaining members", ctx, "trace_remove_kep_err/tol")
+        rit._mode = 0
+        update_acc(sim)
+        air = read_acc(sim)
+        compare(air, refi, condi + 1e-300, (mask2 & ~K2).sum(axis=1), 24, 1, what + ": interaction part (K=0 pairs)", ctx,
+                "trace_remove_int_err/tol")
+        if n2 < N2 and len([i for i in exp if i >= n2]) >= 2 and victim < n:
+            ctx.cls("remove_active_with_testparticles_in_map")
+            ctx.nontrivial()
 
 
 # ---------------------------------------------------------------------------------------
@@ -1196,7 +1363,10 @@ def run_partition(case, ctx):
         ref, cond, _ = R.direct_ld(pos, m, 1.0, c["soft"], mask)
         what = "gravity=tree(theta=0) with N_active=%d testparticle_type=%d gravity_ignore_terms=%d" % (c["n_active"], c["tp_type"], c["ignore"])
     update_acc(sim)
-    got = read_acc(sim)
+    got = read_acc_by_identity(sim, pos, m, ctx) if case["routine"] == "tree" else read_acc(sim)
+    if case["routine"] == "tree" and any(sim.particles[k].x != pos[k][0] for k in range(N)):
+        ctx.skip("tree update reordered the particles: the index-based partition of the case no longer applies")
+        return
     compare(got, ref, cond + 1e-300, np.full(N, 3 * N), 1e4, 1, what + " vs documented active/test-particle semantics", ctx,
             "partition_err/tol")
 
